@@ -30,7 +30,9 @@ func (g *c07Gen) block(depth int, name string) string {
 	}
 	switch vx.Choose(name, menu) {
 	case 0:
-		return "<p>" + g.tok() + " " + g.tok() + "</p>"
+		// (every other paragraph is followed directly by a line break, so that a
+		// <br> also sits right before list, quote and pre start tags)
+		return "<p>" + g.tok() + " " + g.tok() + "</p>" + []string{"", "<br>"}[g.n/2%2]
 	case 1:
 		return g.tok() + " " + g.tok() + " "
 	case 2:
@@ -138,6 +140,19 @@ func HarnessC07Tags() {
 		}
 	}
 	vx.Assert(len(stack) == 0, "converter left a start tag without its end tag")
+	// the rendering of the same document, everything retained: each word keeps
+	// its chain of list/quote/pre ancestors (hidden and embed parts excepted)
+	for _, e := range wd.Elements {
+		e.SetIsContent(true)
+	}
+	od := vx.ParseHTML("<html><body>" + wd.GenerateOutput(false) + "</body></html>")
+	got := map[string]string{}
+	c07Chains(od, got)
+	for w, chain := range got {
+		if want, ok := src[w]; ok && !strings.Contains(page, `class="twitter-tweet"`) {
+			vx.Assert(chain == want, "rendered word changed its list/quote/pre nesting")
+		}
+	}
 }
 
 // HarnessC07Pipeline: whole ExtractContent with symbolic word counts; the
@@ -200,9 +215,12 @@ func HarnessC07Table() {
 			w := g.tok()
 			cells = append(cells, w)
 			td := "<td>"
-			switch vx.Choose("cellform", 3) {
+			switch vx.Choose("cellform", 4) {
 			case 1:
 				w = "<p>" + w + "</p>"
+			case 3: // an empty cell
+				cells = cells[:len(cells)-1]
+				w = ""
 			case 2:
 				// attributes that say "rendered" in so many words
 				td = `<td aria-hidden="false" style="display:table-cell; visibility:visible">`
@@ -228,6 +246,7 @@ func HarnessC07Table() {
 		vx.Cover("table-kept")
 		vx.Assert(present == len(cells), "a retained data table lost some of its cells")
 		vx.Assert(strings.Count(out, "<tr>") == r, "a retained data table lost rows")
+		vx.Assert(strings.Count(out, "<td")+strings.Count(out, "<th>") == r*c, "a retained data table lost cells")
 	} else {
 		vx.Cover("table-dropped")
 	}
